@@ -477,37 +477,73 @@ theorem eager_omitted_defaults_denote_schema_defaults {α} (m : Method) (s : Sch
   rw [this.2]
   simp [meaning, attrMeaning, findKw]
 
-/-! ## translation: `separate_input_attributes_from_arguments(…, fill_defaults=False)` -/
+/-! ## translation: `separate_input_attributes_from_arguments(…, fill_defaults=False)` (as of /repo b7afd5e) -/
 
 /-- **translation_defaults_left_out.**  In translation (`Converter._translate_call_expr`, `tape_builder`:
 `fill_defaults=False`) every attribute put on the node is a value the caller wrote — positionally or under
 its own keyword; an attribute left out of the call is left out of the node (for every signature, every
 call, every setting of the two `allow_extra_*` switches). -/
 theorem translation_defaults_left_out (params : List SigParam) (args : List Nat)
-    (kwargs : List (Nat × Nat)) (aKw aArgs : Bool) (ins : List Nat) (attrs : List (Nat × Nat))
+    (kwargs : List (Nat × Nat)) (aKw aArgs : Bool) (ins : List (Option Nat)) (attrs : List (Nat × Nat))
     (h : separate params args kwargs false aKw aArgs = .ok (ins, attrs)) :
     ∀ kv ∈ attrs, kv.2 ∈ args ∨ kv ∈ kwargs := by
   unfold separate at h
   split at h
   · cases h
-  · cases hl : sepLoop kwargs false params args [] [] false with
+  · cases hl : sepLoop kwargs false params args [] [] false 0 with
     | error e => rw [hl] at h; cases h
     | ok r =>
-      rcases r with ⟨i, a, hv, rest⟩
+      rcases r with ⟨i, a, hv, rest, tp⟩
       rw [hl] at h
       simp only at h
       split at h
       · cases h
       · simp only [Except.ok.injEq, Prod.mk.injEq] at h
         rcases h with ⟨_, rfl⟩
-        exact sepLoop_nofill_written args kwargs params args [] [] false (fun a ha => ha)
+        exact sepLoop_nofill_written args kwargs params args [] [] false 0 (fun a ha => ha)
           (by intro kv hkv; cases hkv) hl
+
+/-- **translation_inputs.**  Either mode.  The node's inputs are the slot list the loop builds — one slot
+per input parameter up to the last one supplied: a value the caller wrote (positionally or by keyword) or a
+`None` placeholder for an omitted optional input, so that an input given by keyword keeps its position
+(`op.Clip(x, max=hi)` is `Clip(x, "", hi)`) — trimmed exactly as `Opset._prepare_inputs` trims in eager
+mode: `inputs = prepareInputs slots`.  Hence (by `prepare_trims_only_trailing`) only trailing placeholders
+are dropped, nothing is reordered, and the two front ends agree on the input list of the same call. -/
+theorem translation_inputs (params : List SigParam) (args : List Nat) (kwargs : List (Nat × Nat))
+    (fill aKw aArgs : Bool) (ins : List (Option Nat)) (attrs : List (Nat × Nat))
+    (h : separate params args kwargs fill aKw aArgs = .ok (ins, attrs)) :
+    ∃ slots attrs' hv rest tp,
+      sepLoop kwargs fill params args [] [] false 0 = .ok (slots, attrs', hv, rest, tp) ∧
+      ins = prepareInputs slots ∧
+      (∀ x ∈ slots, x = none ∨ ∃ v, x = some v ∧ (v ∈ args ∨ ∃ k, (k, v) ∈ kwargs)) := by
+  unfold separate at h
+  split at h
+  · cases h
+  · cases hl : sepLoop kwargs fill params args [] [] false 0 with
+    | error e => rw [hl] at h; cases h
+    | ok r =>
+      rcases r with ⟨i, a, hv, rest, tp⟩
+      rw [hl] at h
+      simp only at h
+      split at h
+      · cases h
+      · simp only [Except.ok.injEq, Prod.mk.injEq] at h
+        rcases h with ⟨rfl, rfl⟩
+        refine ⟨i, a, hv, rest, tp, rfl, ?_, ?_⟩
+        · rcases sepLoop_tp kwargs fill params args [] [] false 0
+            ⟨[], by simp, by simp⟩ hl with ⟨pre, hpre, hlast⟩
+          have h1 : i.take (i.length - tp) = pre := by
+            rw [hpre]; simp
+          rw [h1]
+          exact (prepare_unique i pre tp hpre hlast).symm
+        · exact sepLoop_inputs_written args kwargs fill params args [] [] false 0 (fun a ha => ha)
+            (by intro x hx; cases hx) hl
 
 /-- `fill_defaults=True` differs from it only by *adding* declared attribute defaults: same inputs, the
 no-fill attributes are a sublist, and every additional entry is `(p.name, default of p)` for an attribute
 parameter `p` of the signature.  So both denote the same node meaning wherever a default is the schema's. -/
 theorem translation_fill_adds_only_defaults (params : List SigParam) (args : List Nat)
-    (kwargs : List (Nat × Nat)) (aKw aArgs : Bool) (ins : List Nat) (attrsT : List (Nat × Nat))
+    (kwargs : List (Nat × Nat)) (aKw aArgs : Bool) (ins : List (Option Nat)) (attrsT : List (Nat × Nat))
     (h : separate params args kwargs true aKw aArgs = .ok (ins, attrsT)) :
     ∃ attrsF, separate params args kwargs false aKw aArgs = .ok (ins, attrsF) ∧
       List.Sublist attrsF attrsT ∧
@@ -518,10 +554,10 @@ theorem translation_fill_adds_only_defaults (params : List SigParam) (args : Lis
   · cases h
   · next hkw =>
     simp only [hkw]
-    cases hl : sepLoop kwargs true params args [] [] false with
+    cases hl : sepLoop kwargs true params args [] [] false 0 with
     | error e => rw [hl] at h; cases h
     | ok r =>
-      rcases r with ⟨i, a, hv, rest⟩
+      rcases r with ⟨i, a, hv, rest, tp⟩
       rw [hl] at h
       simp only at h
       split at h
@@ -529,7 +565,7 @@ theorem translation_fill_adds_only_defaults (params : List SigParam) (args : Lis
       · next hx =>
         simp only [Except.ok.injEq, Prod.mk.injEq] at h
         rcases h with ⟨rfl, rfl⟩
-        rcases sepLoop_fill_vs_nofill params kwargs params (fun p hp => hp) args [] [] [] false
+        rcases sepLoop_fill_vs_nofill params kwargs params (fun p hp => hp) args [] [] [] false 0
           ⟨List.Sublist.refl _, by intro kv hkv; cases hkv⟩ hl with ⟨F', hF, hrel⟩
         refine ⟨F', ?_, hrel.1, hrel.2⟩
         rw [hF]
@@ -537,15 +573,19 @@ theorem translation_fill_adds_only_defaults (params : List SigParam) (args : Lis
         rfl
 
 /-- `Gemm`-like signature `(A, B, C?, *, alpha=1.0, transA=0)`: `op.Gemm(a, b, transA=t)` in translation
-gives inputs `[a, b]` and the single attribute `transA = t`; with `fill_defaults=True` also `alpha = default`. -/
+gives inputs `[a, b]` and the single attribute `transA = t`; with `fill_defaults=True` also `alpha = default`.
+`Clip`-like `(input, min?, max?)`: `op.Clip(x, max=hi)` gives `[x, None, hi]`; `op.Clip(x)` gives `[x]`. -/
 example :
     separate [⟨1, true, false, true, none⟩, ⟨2, true, false, true, none⟩, ⟨3, true, false, false, none⟩,
               ⟨4, false, false, false, some 900⟩, ⟨5, false, false, false, some 901⟩]
-      [10, 11] [(5, 12)] false false true = .ok ([10, 11], [(5, 12)]) ∧
+      [10, 11] [(5, 12)] false false true = .ok ([some 10, some 11], [(5, 12)]) ∧
     separate [⟨1, true, false, true, none⟩, ⟨2, true, false, true, none⟩, ⟨3, true, false, false, none⟩,
               ⟨4, false, false, false, some 900⟩, ⟨5, false, false, false, some 901⟩]
-      [10, 11] [(5, 12)] true false true = .ok ([10, 11], [(4, 900), (5, 12)]) := ⟨rfl, rfl⟩
-
+      [10, 11] [(5, 12)] true false true = .ok ([some 10, some 11], [(4, 900), (5, 12)]) ∧
+    separate [⟨1, true, false, true, none⟩, ⟨2, true, false, false, none⟩, ⟨3, true, false, false, none⟩]
+      [10] [(3, 12)] false false true = .ok ([some 10, none, some 12], []) ∧
+    separate [⟨1, true, false, true, none⟩, ⟨2, true, false, false, none⟩, ⟨3, true, false, false, none⟩]
+      [10] [] false false true = .ok ([some 10], []) := ⟨rfl, rfl, rfl, rfl⟩
 
 /-! ### non-vacuity of the history / domain theorems (`enc "BitwiseAnd"` = 1522547307904140230880868,
 `enc "ai.onnx.ml"` = 1668935622595193164688748, `enc "LabelEncoder"` = 102866753728027417819308385650,
